@@ -298,6 +298,14 @@ fn main() {
                         }
                         writeln!(r, "{{\"x\":{},\"t\":9,\"now\":0,\"k\":\"end\",\"stuck\":{},\"budget\":{},\"peek\":{}}}", x, out.stuck, out.over_budget, out.final_peek.as_ref().map(|p| peek_json(p, out)).unwrap_or("{}".to_string())).unwrap();
                     }
+                    if out.hung {
+                        // a controlled thread vanished or hangs outside any hook: the process state is not trustworthy
+                        for w in [hist.as_mut(), raw.as_mut()].into_iter().flatten() {
+                            let _ = w.flush();
+                        }
+                        eprintln!("execution {} hung (no scheduling step for 20 s); giving up on this process", x);
+                        std::process::exit(3);
+                    }
                     if let Some(m) = meta.as_mut() {
                         let d: Vec<String> = out.decisions.iter().map(|d| d.to_string()).collect();
                         writeln!(
